@@ -12,6 +12,8 @@ import sys
 import time
 import warnings
 
+sys.setrecursionlimit(max(sys.getrecursionlimit(), 20000))
+
 VERIF = os.path.dirname(os.path.dirname(os.path.abspath(__file__)))
 PKG = "audiolazy"
 
